@@ -129,3 +129,285 @@ Definition run_cache_case (ops : list sx) : sx :=
   | Some ops => L (run_cache_ops [] ops)
   | None => bad_case
   end.
+
+(* ====================================================================== *)
+(* Round 6: the cache carried between DOCUMENTS.  A state is a set of live
+   Document objects in numbered slots plus the cache table; operations create
+   documents, query them (lines / _line_start_indexes / any other query, which
+   pre-seeds the cache according to its footprint), drop them, and PRODUCE new
+   documents from live ones (paste_clipboard_data, insert_after, insert_before,
+   Document(d.text, d.cursor_position)).  A cache entry exists exactly while a
+   live document has that text (WeakValueDictionary + reference counting). *)
+
+Definition rep_str (s : str) (n : Z) : str := concat (repeat s (Z.to_nat n)).
+Definition ljust (s : str) (w : Z) : str := s ++ repeat SP (Z.to_nat (w - len s)).
+Fixpoint set_nth {T} (n : nat) (x : T) (l : list T) : list T :=
+  match l, n with
+  | [], _ => []
+  | _ :: r, O => x :: r
+  | y :: r, S k => y :: set_nth k x r
+  end.
+
+(* the BLOCK branch of paste_clipboard_data: for i, line in enumerate(data.split("\n")) *)
+Fixpoint block_paste (ls dls : list str) (idx : nat) (sc count : Z) : list str :=
+  match dls with
+  | [] => ls
+  | line :: r =>
+      let ls1 := if (length ls <=? idx)%nat then ls ++ [[]] else ls in
+      let padded := ljust (nth idx ls1 []) sc in
+      let newl := firstn (Z.to_nat sc) padded ++ rep_str line count ++ skipn (Z.to_nat sc) padded in
+      block_paste (set_nth idx newl ls1) r (S idx) sc count
+  end.
+
+(* Document.paste_clipboard_data(data, paste_mode, count): ty 0 CHARACTERS, 1 LINES,
+   2 BLOCK; mode 0 EMACS, 1 VI_BEFORE, 2 VI_AFTER.  Returns the (text, cursor)
+   handed to Document(...). *)
+Definition paste_doc (d : doc) (data : str) (ty mode count : Z) : doc :=
+  let before := mode =? 1 in
+  let after := mode =? 2 in
+  let t := dtext d in
+  let cur := dcur d in
+  if count <? 1 then mkdoc t cur
+  else if ty =? 0 then
+    let ins := rep_str data count in
+    let nt := if after then slice_to t (cur + 1) ++ ins ++ slice_from t (cur + 1)
+              else text_before_cursor d ++ ins ++ text_after_cursor d in
+    mkdoc nt (cur + len data * count - (if before then 1 else 0))
+  else if ty =? 1 then
+    let l := cursor_position_row d in
+    let ls := lines d in
+    if before then
+      mkdoc (join [NL] (slice_to ls l ++ repeat data (Z.to_nat count) ++ slice_from ls l))
+            (len (concat (slice_to ls l)) + l)
+    else
+      mkdoc (join [NL] (slice_to ls (l + 1) ++ repeat data (Z.to_nat count) ++ slice_from ls (l + 1)))
+            (len (concat (slice_to ls (l + 1))) + l + 1)
+  else
+    let sc := cursor_position_col d + (if before then 0 else 1) in
+    mkdoc (join [NL] (block_paste (lines d) (split_on NL data) (Z.to_nat (cursor_position_row d)) sc count))
+          (cur + (if before then 0 else 1)).
+
+(* which cached fields of the SOURCE document the paste reads: 0 none, 2 both *)
+Definition paste_footprint (ty count : Z) : Z :=
+  if count <? 1 then 0 else if ty =? 0 then 0 else 2.
+
+Definition slots := list (Z * doc).
+Fixpoint sget (s : slots) (i : Z) : option doc :=
+  match s with
+  | [] => None
+  | (k, d) :: r => if k =? i then Some d else sget r i
+  end.
+Fixpoint sdel (s : slots) (i : Z) : slots :=
+  match s with
+  | [] => []
+  | (k, d) :: r => if k =? i then sdel r i else (k, d) :: sdel r i
+  end.
+Definition sput (s : slots) (i : Z) (d : doc) : slots := (i, d) :: sdel s i.
+Definition text_live (s : slots) (t : str) : bool :=
+  existsb (fun p => str_eqb (dtext (snd p)) t) s.
+
+(* the entry of a text dies with its last document *)
+Definition release (s : slots) (c : cache) (t : str) : cache :=
+  if text_live s t then c else cdrop c t.
+
+(* dst = <new Document d'>: the constructor runs first (entry looked up or
+   created), then the old occupant of the slot is released *)
+Definition place (s : slots) (c : cache) (dst : Z) (d' : doc) : slots * cache :=
+  let c1 := cnew c (dtext d') in
+  let s' := sput s dst d' in
+  match sget s dst with
+  | Some old => (s', release s' c1 (dtext old))
+  | None => (s', c1)
+  end.
+
+(* a query with footprint fp on a document of text t *)
+Definition touch (c : cache) (t : str) (fp : Z) : cache :=
+  if fp =? 2 then snd (cached_indexes c t)
+  else if fp =? 1 then snd (cached_lines c t)
+  else c.
+
+Inductive sop : Type :=
+| SNew (i : Z) (t : str) (cur : Z)
+| SLines (i : Z)
+| SIndexes (i : Z)
+| SDrop (i : Z)
+| SQuery (i : Z) (fp : Z)
+| SPaste (src dst : Z) (data : str) (ty mode count : Z)
+| SInsAfter (src dst : Z) (t : str)
+| SInsBefore (src dst : Z) (t : str)
+| SCopy (src dst : Z).
+
+Inductive sval : Type :=
+| SVNone | SVErr | SVLines (l : list str) | SVIndexes (l : list Z) | SVDoc (d : doc).
+
+(* Document(text, cursor): AssertionError when cursor > len(text), before the cache is touched *)
+Definition ctor_ok (d : doc) : bool := dcur d <=? len (dtext d).
+
+Definition produce (s : slots) (c : cache) (dst : Z) (d' : doc) : sval * (slots * cache) :=
+  if ctor_ok d' then (SVDoc d', place s c dst d') else (SVErr, (s, c)).
+
+Definition sstep (st : slots * cache) (o : sop) : sval * (slots * cache) :=
+  let '(s, c) := st in
+  match o with
+  | SNew i t cur => produce s c i (mkdoc t cur)
+  | SLines i =>
+      match sget s i with
+      | Some d => let '(l, c') := cached_lines c (dtext d) in (SVLines l, (s, c'))
+      | None => (SVNone, st)
+      end
+  | SIndexes i =>
+      match sget s i with
+      | Some d => let '(ix, c') := cached_indexes c (dtext d) in (SVIndexes ix, (s, c'))
+      | None => (SVNone, st)
+      end
+  | SDrop i =>
+      match sget s i with
+      | Some d => let s' := sdel s i in (SVNone, (s', release s' c (dtext d)))
+      | None => (SVNone, st)
+      end
+  | SQuery i fp =>
+      match sget s i with
+      | Some d => (SVNone, (s, touch c (dtext d) fp))
+      | None => (SVNone, st)
+      end
+  | SPaste src dst data ty mode count =>
+      match sget s src with
+      | Some d => produce s (touch c (dtext d) (paste_footprint ty count)) dst (paste_doc d data ty mode count)
+      | None => (SVNone, st)
+      end
+  | SInsAfter src dst t =>
+      match sget s src with
+      | Some d => produce s c dst (mkdoc (dtext d ++ t) (dcur d))
+      | None => (SVNone, st)
+      end
+  | SInsBefore src dst t =>
+      match sget s src with
+      | Some d => produce s c dst (mkdoc (t ++ dtext d) (dcur d + len t))
+      | None => (SVNone, st)
+      end
+  | SCopy src dst =>
+      match sget s src with
+      | Some d => produce s c dst (mkdoc (dtext d) (dcur d))
+      | None => (SVNone, st)
+      end
+  end.
+
+(* the same operation on documents WITHOUT any cache *)
+Definition sfree (s : slots) (o : sop) : sval * slots :=
+  let prod dst d' := if ctor_ok d' then (SVDoc d', sput s dst d') else (SVErr, s) in
+  match o with
+  | SNew i t cur => prod i (mkdoc t cur)
+  | SLines i => match sget s i with Some d => (SVLines (lines d), s) | None => (SVNone, s) end
+  | SIndexes i => match sget s i with Some d => (SVIndexes (line_start_indexes d), s) | None => (SVNone, s) end
+  | SDrop i => match sget s i with Some _ => (SVNone, sdel s i) | None => (SVNone, s) end
+  | SQuery i _ => (SVNone, s)
+  | SPaste src dst data ty mode count =>
+      match sget s src with Some d => prod dst (paste_doc d data ty mode count) | None => (SVNone, s) end
+  | SInsAfter src dst t =>
+      match sget s src with Some d => prod dst (mkdoc (dtext d ++ t) (dcur d)) | None => (SVNone, s) end
+  | SInsBefore src dst t =>
+      match sget s src with Some d => prod dst (mkdoc (t ++ dtext d) (dcur d + len t)) | None => (SVNone, s) end
+  | SCopy src dst =>
+      match sget s src with Some d => prod dst (mkdoc (dtext d) (dcur d)) | None => (SVNone, s) end
+  end.
+
+Fixpoint srun (st : slots * cache) (ops : list sop) : list sval * (slots * cache) :=
+  match ops with
+  | [] => ([], st)
+  | o :: r => let '(v, st1) := sstep st o in let '(vs, st2) := srun st1 r in (v :: vs, st2)
+  end.
+
+Fixpoint sfree_run (s : slots) (ops : list sop) : list sval * slots :=
+  match ops with
+  | [] => ([], s)
+  | o :: r => let '(v, s1) := sfree s o in let '(vs, s2) := sfree_run s1 r in (v :: vs, s2)
+  end.
+
+(* ---------------------------------------------------------------------- *)
+(* which cached fields a query of Document touches (read off document.py):
+   0 none, 1 lines, 2 line_indexes (and, through it, lines).  Codes are the op
+   codes of run_op (Model/C02_Run.v). *)
+Definition footprint (op : sx) : option Z :=
+  match op with
+  | L (A code :: args) =>
+      if mem_Z code [1; 2; 3; 6; 7; 10; 11; 27; 28] then Some 2
+      else if code =? 31 then Some 1
+      else if code =? 4 then match args with [A n] => Some (if n <? 0 then 0 else 2) | _ => None end
+      else if code =? 5 then match args with [A n] => Some (if n <? 0 then 2 else 0) | _ => None end
+      else if code =? 8 then
+        match args with
+        | [b] => match as_bool b with Some b => Some (if b then 2 else 0) | None => None end
+        | _ => None
+        end
+      else if (9 <=? code) && (code <=? 33) then Some 0
+      else None
+  | _ => None
+  end.
+
+(* wire: (-2 (op ...)); per op: (value state), state = what the table holds
+   for the text of the op's target document after the op:
+   (present lines? indexes? shared extra-fields) *)
+Definition sstate (c : cache) (t : str) : sx :=
+  match clookup c t with
+  | None => L [A 0; L []; L []; A 0; A 0]
+  | Some e => L [A 1; sx_opt (sx_list sx_str) (ce_lines e); sx_opt (sx_list A) (ce_indexes e); A 1; A 0]
+  end.
+
+Definition sx_sval (v : sval) : sx :=
+  match v with
+  | SVNone => L []
+  | SVErr => L [A 1]
+  | SVLines l => sx_list sx_str l
+  | SVIndexes l => sx_list A l
+  | SVDoc d => L [sx_str (dtext d); A (dcur d)]
+  end.
+
+Definition decode_sop (s : sx) : option sop :=
+  match s with
+  | L [A 1; A i; t; A cur] =>
+      match as_str t with Some t => if cur <? 0 then None else Some (SNew i t cur) | None => None end
+  | L [A 2; A i] => Some (SLines i)
+  | L [A 3; A i] => Some (SIndexes i)
+  | L [A 4; A i] => Some (SDrop i)
+  | L [A 5; A i; op] => match footprint op with Some fp => Some (SQuery i fp) | None => None end
+  | L [A 6; A src; A dst; data; A ty; A mode; A count] =>
+      match as_str data with
+      | Some data =>
+          if (0 <=? ty) && (ty <=? 2) && (0 <=? mode) && (mode <=? 2) then Some (SPaste src dst data ty mode count)
+          else None
+      | None => None
+      end
+  | L [A 7; A src; A dst; t] => match as_str t with Some t => Some (SInsAfter src dst t) | None => None end
+  | L [A 8; A src; A dst; t] => match as_str t with Some t => Some (SInsBefore src dst t) | None => None end
+  | L [A 9; A src; A dst] => Some (SCopy src dst)
+  | _ => None
+  end.
+
+(* the text whose table entry is reported after the op *)
+Definition sop_text (before after : slots) (o : sop) : str :=
+  let of s i := match sget s i with Some d => dtext d | None => [] end in
+  match o with
+  | SNew i _ _ => of after i
+  | SLines i | SIndexes i | SQuery i _ => of after i
+  | SDrop i => of before i
+  | SPaste _ dst _ _ _ _ | SInsAfter _ dst _ | SInsBefore _ dst _ | SCopy _ dst => of after dst
+  end.
+
+(* a produced document with a negative cursor is outside the property *)
+Definition sval_neg (v : sval) : bool :=
+  match v with SVDoc d => dcur d <? 0 | _ => false end.
+
+Fixpoint run_slot_ops (st : slots * cache) (ops : list sop) : list sx :=
+  match ops with
+  | [] => []
+  | o :: r =>
+      let '(v, st1) := sstep st o in
+      if sval_neg v then [bad_case]
+      else L [sx_sval v; sstate (snd st1) (sop_text (fst st) (fst st1) o)] :: run_slot_ops st1 r
+  end.
+
+Definition run_slot_case (ops : list sx) : sx :=
+  match map_opt decode_sop ops with
+  | Some ops => L (run_slot_ops ([], []) ops)
+  | None => bad_case
+  end.
